@@ -116,6 +116,8 @@ def alpha_cfg(draw, kinds, assets, long_only):
     if k == 'fixed':
         keys = [a for a in assets if draw(st.sampled_from([True, True, True, False]))]
         return {'kind': 'fixed', 'weights': {a: weight_value(draw, long_only) for a in keys}}
+    if k == 'hist':
+        return {'kind': 'hist', 'lookback': draw(st.sampled_from([2, 5, 9, 20]))}
     if k == 'cycle':
         n = draw(st.sampled_from([2, 2, 3]))
         return {'kind': 'cycle', 'vectors': [{a: weight_value(draw, long_only) for a in assets} for _ in range(n)]}
@@ -131,7 +133,7 @@ def alpha_cfg(draw, kinds, assets, long_only):
 
 
 @st.composite
-def full_config(draw, names, start, end, alpha_kinds=('fixed', 'single', 'topn', 'sma', 'invvol'),
+def full_config(draw, names, start, end, alpha_kinds=('fixed', 'single', 'topn', 'sma', 'invvol', 'cycle', 'hist'),
                 dynamic=True, burn=True, sched=None, entry_kinds=('before', 'before', 'start', 'start', 'on', 'on', 'after1m', 'after1m', 'mid', 'mid', 'after_end', 'none'),
                 burn_kinds=('on', 'after1m', 'mid', 'none', 'on', 'after1m', 'mid', 'none', 'before', 'after_end', 'none')):
     assets = ['EQ:' + n for n in names]
